@@ -24,7 +24,7 @@ FAULTS = {
 PRELUDE = ['let strf = func (x) => "s";', "let intf = func (x) => x + 1;", "let tupf = func (x) => {a = x};",
            "let lstf = func (x) => [x, x];", 'let sv = "x12";', "let iv = 7;", "let tv = {a = 1};", "let lv = [1, 2];"]
 NESTINGS = ["top", "tuple_field", "list_elem", "call_arg", "select_arm", "func_body", "template_expr", "module_body", "module_out",
-            "module_result"]
+            "module_result", "map_callback", "map_tuple_callback", "filter_callback", "reduce_callback"]
 SYNTAX = [("=", ""), (";", ""), ("(", ""), (")", ""), ("{", ""), ("}", ")"), ("=", "=="), (",", ";")]
 
 
@@ -113,6 +113,15 @@ def fault_statements(kind, nesting, tag):
                 "let bad%s = m%s{};" % (tag, tag)], 0, 2
     if nesting == "func_body":
         return ["let g%s = func (x) => [x, %s];" % (tag, F), "let keep%s = 1;" % tag, "let bad%s = g%s(1);" % (tag, tag)], 0, 2
+    if nesting in ("map_callback", "filter_callback", "reduce_callback", "map_tuple_callback"):
+        # the fault is in the body of a function used as the callback of map/filter/reduce over a collection written in an
+        # earlier statement: the calling statement (not the collection's) is on the path to the fault
+        coll = "{a = 1, b = 2}" if nesting == "map_tuple_callback" else "[1, 2, 3]"
+        params = {"map_callback": "(x)", "filter_callback": "(x)", "reduce_callback": "(acc, x)", "map_tuple_callback": "(k, v)"}[nesting]
+        call = {"map_callback": "map(cb%s, items%s)", "filter_callback": "filter(cb%s, items%s)",
+                "reduce_callback": "reduce(cb%s, 0, items%s)", "map_tuple_callback": "map(cb%s, items%s)"}[nesting] % (tag, tag)
+        return ["let items%s = %s;" % (tag, coll), "let cb%s = func %s => [1, %s];" % (tag, params, F), "let keep%s = 1;" % tag,
+                "let bad%s = %s;" % (tag, call)], 1, 3
     raise ValueError(nesting)
 
 
